@@ -224,7 +224,9 @@ Theorem C05_agree_decides_equality_with_model :
   forall c,
     tie_free (e_deadline (c_env c)) (case_plans c) = true ->
     (agree c = true <->
-     run (c_cfg c) (c_env c) (c_duty c) (c_prepare c) = ((c_prep_events c, c_prep_ok c), c_obs c)).
+     run (c_cfg c) (c_env c) (c_duty c) (c_prepare c) = ((c_prep_events c, c_prep_ok c), c_obs c)
+     /\ d_account (duty_after (c_cfg c) (c_env c) (c_duty c) (c_prepare c)) = c_post_account c
+     /\ d_randao (duty_after (c_cfg c) (c_env c) (c_duty c) (c_prepare c)) = c_post_randao c).
 Proof. exact agree_sound. Qed.
 Print Assumptions C05_agree_decides_equality_with_model.
 
